@@ -582,6 +582,14 @@ auto rcu_list<T, M, Alloc>::erase(const_iterator iter) -> iterator
     // make sure the node has not already been marked for deletion
     node* oldNextOrig = iter.m_current->next.load();
     if (!iter.m_current->deleted) {
+        // allocate the bookkeeping record before the list is touched: if the
+        // allocation throws, nothing has changed yet (otherwise the unlinked
+        // node would never be destroyed or freed)
+        auto newZombie = zombie_alloc_trait::allocate(m_zombie_alloc, 1);
+        zombie_alloc_trait::construct(m_zombie_alloc,
+                                      newZombie,
+                                      iter.m_current);
+
         iter.m_current->deleted = true;
 
         node* oldPrev = iter.m_current->back.load();
@@ -600,11 +608,6 @@ auto rcu_list<T, M, Alloc>::erase(const_iterator iter) -> iterator
             // no next node, this node was the tail
             m_tail.store(oldPrev);
         }
-
-        auto newZombie = zombie_alloc_trait::allocate(m_zombie_alloc, 1);
-        zombie_alloc_trait::construct(m_zombie_alloc,
-                                      newZombie,
-                                      iter.m_current);
 
         zombie_list_node* oldZombie = m_zombie_head.load();
 
